@@ -15,8 +15,8 @@ use std::{
 pub mod serde;
 
 /// The longest timeout a deadline timer is armed with. `tokio_util::time::DelayQueue` panics on
-/// timeouts beyond its range (about 2.2 years); deadlines further away than this are enforced late
-/// rather than crashing the task that tracks them.
+/// timeouts beyond its range (about 2.2 years); the timer of a deadline further away than this is
+/// armed again when it fires, until the whole time to the deadline has passed.
 pub(crate) const MAX_DEADLINE_TIMEOUT: Duration = Duration::from_secs(86_400 * 365);
 
 /// Renders a deadline as the wall-clock timestamp recorded in the RPC span. A deadline beyond what
